@@ -6,14 +6,15 @@
     fips46 K         DES (FIPS 46-3), K of 8 bytes, 8-byte blocks
     sp80067 ko       TDEA (SP 800-67 / FIPS 46-3 TDEA) with the key bundle `ko` (keying option 1, 2 or 3), 8-byte blocks
     serpent K        Serpent (AES submission), K of 0..32 bytes, 16-byte blocks
+    threefish K T    Threefish-256/512/1024 (Skein 1.3, section 3.3), K of 32/64/128 bytes, tweak T of 16 bytes, |K|-byte blocks
   Where the standard does not define the cipher (wrong key or block length) the function value is the empty string;
   the mode theorems never evaluate them there.
-  HOOK: Threefish-256/512/1024 (Skein 1.3) goes here once Spec.Threefish exists.
 -/
 import Spec.Mode
 import Spec.Aes
 import Spec.Des
 import Spec.Serpent
+import Spec.Threefish
 namespace Spec.ModeCiphers
 open Spec.Mode
 
@@ -37,6 +38,10 @@ def serpentShared (K : List Nat) : Cipher :=
       Spec.Serpent.leBytes 16 (Spec.Serpent.natOfState (g rk (Spec.Serpent.stateOfNat (Spec.Serpent.leNat b))))
     else []
   ⟨16, f Spec.Serpent.encState, f Spec.Serpent.decState⟩
+
+/-- Threefish with the block length of the key (32/64/128 bytes) and a 16-byte tweak -/
+def threefish (K T : List Nat) : Cipher :=
+  ⟨K.length, fun b => (Spec.Threefish.enc K T b).getD [], fun b => (Spec.Threefish.dec K T b).getD []⟩
 
 /-- the key bundle denoted by the arguments of a `TDEA(K1,K2,K3)` call (SP 800-67 keying options):
     one string of 8/16/24 bytes, two 8-byte strings (option 2), three 8-byte strings (option 1) -/
